@@ -102,7 +102,7 @@ func init() {
 		p.Weird = 0.02
 		p.InitVals = 0.3
 		p.BadDecl = 0.01
-	}, oracleNoPanic)
+	}, oracleNoPanic, oraclePlainFields)
 	{
 		base := props["C01"]
 		props["C01"] = propRun{rule: base.rule + "; denotation stage: command lines made only of occurrences of declared options (all spellings, clusters, after command words, values with '=', ':', leading dashes, quotes, blanks), whose meaning (last value / every value in order / last value per key / flag true / untouched otherwise) is computed independently and compared with the fields after a successful parse", run: func(c *Ctx) {
@@ -288,9 +288,10 @@ func init() {
 			checkC16(c, budget(c.Tier, 500, 50000))
 		}}
 	props["C18"] = propRun{
-		rule: "generated declarations (Completer-typed options and positionals, hidden options, nested commands) and argument vectors made of a plausible prefix and a partial last word (long/short prefixes, --name=partial, -xpartial, command prefixes, bare dash); completion list compared with the model; sortedness and hidden-name oracles; acceptance oracle against the parser itself (its own parse of the typed words gives the command context; every offered option / command, appended to those words, must be taken by the parser as that option / command; long-option and command lists must be exactly the visible ones of that context which the parser accepts there; the probes are compared with the model too); distinct per case",
+		rule: "generated declarations (Completer-typed options and positionals, hidden options, nested commands) and argument vectors made of a plausible prefix and a partial last word (long/short prefixes, --name=partial, -xpartial, command prefixes, bare dash); completion list compared with the model; sortedness and hidden-name oracles; acceptance oracle against the parser itself (its own parse of the typed words gives the command context; every offered option / command, appended to those words, must be taken by the parser as that option / command; long-option and command lists must be exactly the visible ones of that context which the parser accepts there; the probes are compared with the model too); positional stage: positional fields of a completing type, k typed values, terminator / PassAfterNonOption: the type's completions are offered exactly when a field still takes the word; distinct per case",
 		run: func(c *Ctx) {
 			checkC18(c, budget(c.Tier, 1500, 80000))
+			checkC18Positional(c, budget(c.Tier, 300, 10000))
 		}}
 }
 
